@@ -114,6 +114,16 @@ def fixed_programs():
         for j, s_ in enumerate(ss):
             src += f"d{j}.Setting = tag({s_!r})\nd{j + 2}.Setting = plain({s_!r}) + d5.Setting\nd{j}.Mode = tag({s_!r}, k=7)\n"
         out.append((f"hash_string:{i}", src, ["tag", "plain"]))
+    # several library modules that each define constexpr functions (the child script holds one class
+    # per module), equal function names in the modules and in main
+    libs = {
+        "": HDR + "from library import codes\nfrom library import units as u\nfrom library import third\n\n@constexpr\ndef pack(a, b=1):\n    return a * 1000 + b\n\n"
+                  "db.Setting = codes.pack(\"ItemIronIngot\", 3)\nd0.Setting = u.kelvin(-40)\nd1.Setting = pack(7)\nd2.Setting = u.pack(2, 3) + d5.Setting\nd3.Setting = third.pack(5)\nd4.Setting = codes.pack(\"abc\") + pack(1, b=2)\n",
+        "codes": HDR + "@constexpr\ndef pack(name, count=1):\n    return HASH(name) << 8 | count\n",
+        "units": HDR + "@constexpr\ndef kelvin(c):\n    return c + 273.25\n\n@constexpr\ndef pack(a, b):\n    return a * 16 + b\n",
+        "third": HDR + "@constexpr\ndef pack(a):\n    return -a\n",
+    }
+    out.append(("libraries:three_with_constexpr", libs, ["pack", "kelvin"]))
     for k, (fn, calls) in VALUE_KINDS.items():
         src = HDR + fn + "\n" + "".join(f"d{i}.Setting = {c}\n" for i, c in enumerate(calls)) + "db.Setting = " + calls[0] + " + d5.On\n"
         out.append((f"value_kind:{k}", src, [fn.split("def ")[1].split("(")[0]]))
